@@ -68,6 +68,12 @@ namespace xtl
 
     namespace detail
     {
+        // ranges of pure input iterators (e.g. std::istreambuf_iterator) can be neither
+        // measured with std::distance nor read twice
+        template <class It>
+        using is_multipass_iterator = std::is_base_of<std::forward_iterator_tag,
+                                                      typename std::iterator_traits<It>::iterator_category>;
+
         template <int selector>
         struct select_storage;
 
@@ -922,6 +928,11 @@ namespace xtl
     template <class InputIt>
     inline auto xbasic_fixed_string<CT, N, ST, EP, TR>::assign(InputIt first, InputIt last) -> self_type&
     {
+        if (!detail::is_multipass_iterator<InputIt>::value)
+        {
+            const string_type tmp(first, last);
+            return assign(tmp.data(), tmp.data() + tmp.size());
+        }
         m_storage.set_size(error_policy::check_size(static_cast<size_type>(std::distance(first, last))));
         std::copy(first, last, data());
         return *this;
@@ -1297,6 +1308,11 @@ namespace xtl
     template <class InputIt>
     auto xbasic_fixed_string<CT, N, ST, EP, TR>::insert(const_iterator pos, InputIt first, InputIt last) -> iterator
     {
+        if (!detail::is_multipass_iterator<InputIt>::value)
+        {
+            const string_type tmp(first, last);
+            return insert(pos, tmp.data(), tmp.data() + tmp.size());
+        }
         if (cbegin() <= pos && pos <= cend())
         {
             size_type index = static_cast<size_type>(pos - cbegin());
@@ -1412,6 +1428,11 @@ namespace xtl
     template <class InputIt>
     inline auto xbasic_fixed_string<CT, N, ST, EP, TR>::append(InputIt first, InputIt last) -> self_type&
     {
+        if (!detail::is_multipass_iterator<InputIt>::value)
+        {
+            const string_type tmp(first, last);
+            return append(tmp.data(), tmp.data() + tmp.size());
+        }
         size_type count = static_cast<size_type>(std::distance(first, last));
         size_type old_size = m_storage.size();
         m_storage.set_size(error_policy::check_add(size(), count));
@@ -1675,6 +1696,11 @@ namespace xtl
     inline auto xbasic_fixed_string<CT, N, ST, EP, TR>::replace(const_iterator first, const_iterator last,
                                                             InputIt first2, InputIt last2) -> self_type&
     {
+        if (!detail::is_multipass_iterator<InputIt>::value)
+        {
+            const string_type tmp(first2, last2);
+            return replace(first, last, tmp.data(), tmp.data() + tmp.size());
+        }
         if (cbegin() <= first && first <= last && last <= cend())
         {
             size_type pos = static_cast<size_type>(first - cbegin());
